@@ -5,4 +5,5 @@ cd "$(dirname "$0")"
 export CARGO_NET_OFFLINE=true
 ./vendor/check_vendor.sh
 (cd engine && cargo build --release --offline 2>&1 | tail -3)
+(cd engine-sdk && cargo build --release --offline 2>&1 | tail -3)
 echo "setup ok"
